@@ -58,6 +58,38 @@ def look (kv : List (String × J)) (k : String) : Option J := Dict.get? kv k
 
 def sOf (cs : Str) : J := .str (String.ofList cs)
 
+/-! ## offsets, positions, jump targets -/
+
+/-- the jump parameter of an op: the int at the index `OPS_WITH_JUMP_TO_MEM_OFFSET` gives for its opcode -/
+def jumpOf (o : Op) : Option Int :=
+  match jumpIdx o.name with
+  | none => none
+  | some i =>
+    match o.params[i]? with
+    | some (.int t) => some t
+    | _ => none
+
+/-- 1-based position of the first op with offset `t` ("The indices start at 1!") -/
+def posOf : List Int → Int → Option Int
+  | [], _ => none
+  | x :: xs, t => if x = t then some 1 else (posOf xs t).map (· + 1)
+
+/-- `build_ops(ops, positions)`: the jump parameter (an int at the index of OPS_WITH_JUMP_TO_MEM_OFFSET) is replaced by
+`positions.get(param, param)` — the 1-based position of the op with that internal offset -/
+def remapOp (offs : List Int) (o : Op) : Op :=
+  match jumpIdx o.name with
+  | none => o
+  | some i =>
+    match o.params[i]? with
+    | some (.int t) =>
+      match posOf offs t with
+      | some p => ⟨o.offset, o.name, o.params.set i (.int p)⟩
+      | none => o
+    | _ => o
+
+/-- `positions` is built from ALL of `routine_ops` (`setdefault`: first op with an offset wins) before the zip loop -/
+def remap (c : RoutineSet) : RoutineSet := ⟨c.infos, c.ops.map fun r => r.map (remapOp c.offsets), c.coros⟩
+
 /-! ## compile.py -/
 
 /-- the `isinstance` chain of `build_ops` (every `Param` is one of the six classes, the final `raise` is unreachable) -/
@@ -76,12 +108,11 @@ def opJ (o : Op) : J := .obj [("opcode", .str o.name), ("params", .arr (o.params
 
 def opsJ (ops : List Op) : J := .arr (ops.map opJ)
 
-/-- `info.linked_to if info.linked_to is not -1 else info.linked_to_name` (CPython: small ints are shared, `is not` is `!=`) -/
+/-- `info.linked_to_name if info.linked_to_name is not None else info.linked_to` -/
 def targetJ (i : RoutineInfo) : J :=
-  if i.linkedTo ≠ -1 then .int i.linkedTo
-  else match i.linkedToName with
-    | some n => .str n
-    | none => .null
+  match i.linkedToName with
+  | some n => .str n
+  | none => .int i.linkedTo
 
 /-- entry of `compiler.named_coroutines`: the name, or `[]` for a routine that is not a coroutine -/
 def nameJ : Option String → J
@@ -111,11 +142,14 @@ def routinesJ : List RoutineInfo → List (Option String) → List (List Op) →
   | i :: is, n :: ns, o :: os => consR (routineJ i n o) (routinesJ is ns os)
   | _, _, _ => .ok []
 
-/-- `output_dict` of compile.py's `__main__` -/
-def buildJson (settings : J) (c : RoutineSet) : R J :=
+/-- the zip loop and `output_dict`, on ops whose jump parameters already are what is to be printed -/
+def buildJsonRaw (settings : J) (c : RoutineSet) : R J :=
   match routinesJ c.infos c.coros c.ops with
   | .error e => .error e
   | .ok rs => .ok (.obj [("settings", settings), ("routines", .arr rs)])
+
+/-- `output_dict` of compile.py's `__main__`: `build_routines_json` with the position table -/
+def buildJson (settings : J) (c : RoutineSet) : R J := buildJsonRaw settings (remap c)
 
 /-! ## decompile.py -/
 
@@ -133,10 +167,13 @@ def cliParsePos (s : Str) : R (Int × Int) :=
       | none => .error .valueError
   | [] => .error .valueError
 
-/-- `parse_pos_mark_arg(param["value"]["x"])`: anything but a string has no `.split` -/
+/-- `parse_pos_mark_arg(str(param["value"]["x"]))`: `str()` of an int is its decimal spelling, of `None` the text "None"
+(no integer: ValueError); `str()` of a float, list or dict is outside the model -/
 def coordOf : J → R (Int × Int)
   | .str s => cliParsePos s.toList
-  | _ => .error .attributeError
+  | .int i => cliParsePos (showInt i)
+  | .null => .error .valueError
+  | _ => .error .outside
 
 def lerr : LErr → CErr
   | .valueError => .valueError
@@ -238,7 +275,7 @@ def readOp (off : Nat) : J → R Op
     | _ => .error .outside
   | _ => .error .outside
 
-/-- `read_ops` when the module-level counter stands at `n`: the k-th op (from 0) gets offset `n + k + 1` -/
+/-- `read_ops(ops, counter)` when the per-document counter of `read_routines` stands at `n`: the k-th op (from 0) gets offset `n + k + 1` -/
 def readOpsFrom (n : Nat) : List J → R (List Op)
   | [] => .ok []
   | j :: js => consR (readOp (n + 1) j) (readOpsFrom (n + 1) js)
@@ -266,8 +303,8 @@ def withOps (info : RoutineInfo) (coro : Int × String) (n : Nat) (ops : J) : R 
   | .error e => .error e
   | .ok l => .ok ⟨info, coro, l⟩
 
-/-- body of `for r in routines` of `read_routines`, counter at `n` -/
-def readRoutine (n : Nat) : J → R RRoutine
+/-- body of `for r in routines` of `read_routines`, op counter at `n`; `idx = len(routine_infos)` is the index of this routine -/
+def readRoutine (n idx : Nat) : J → R RRoutine
   | .obj kv =>
     match look kv "ops" with
     | none => .error .valueError
@@ -279,7 +316,7 @@ def readRoutine (n : Nat) : J → R RRoutine
       | .str "COROUTINE" =>
         match look kv "name" with
         | none => .error .valueError
-        | some (.str nm) => withOps ⟨.coroutine, -1, none⟩ (-1, nm) n ops
+        | some (.str nm) => withOps ⟨.coroutine, -1, none⟩ ((idx : Int), nm) n ops
         | some _ => .error .outside
       | .str "GENERIC" => withOps ⟨.generic, -1, none⟩ (-1, "n/a") n ops
       | .str "ACTOR" =>
@@ -304,12 +341,12 @@ def readRoutine (n : Nat) : J → R RRoutine
   | _ => .error .outside
 
 /-- `read_routines`, the counter threaded through the routines -/
-def readRoutinesFrom (n : Nat) : List J → R (List RRoutine)
+def readRoutinesFrom (n idx : Nat) : List J → R (List RRoutine)
   | [] => .ok []
   | j :: js =>
-    match readRoutine n j with
+    match readRoutine n idx j with
     | .error e => .error e
-    | .ok r => match readRoutinesFrom (n + r.ops.length) js with
+    | .ok r => match readRoutinesFrom (n + r.ops.length) (idx + 1) js with
       | .error e => .error e
       | .ok rs => .ok (r :: rs)
 
@@ -340,7 +377,7 @@ def readRaw (doc : J) : R (List RRoutine) :=
     | .ok _ =>
       match look kv "routines" with
       | none => .error .keyError
-      | some (.arr l) => readRoutinesFrom 0 l
+      | some (.arr l) => readRoutinesFrom 0 0 l
       | some _ => .error .outside
   | _ => .error .outside
 
@@ -478,21 +515,7 @@ abbrev DocShape : J → Bool := DocShapeG true
 /-- the documented structure with string position coordinates -/
 abbrev DocShapeStr : J → Bool := DocShapeG false
 
-/-! ## offsets, positions, jump targets -/
-
-/-- the jump parameter of an op: the int at the index `OPS_WITH_JUMP_TO_MEM_OFFSET` gives for its opcode -/
-def jumpOf (o : Op) : Option Int :=
-  match jumpIdx o.name with
-  | none => none
-  | some i =>
-    match o.params[i]? with
-    | some (.int t) => some t
-    | _ => none
-
-/-- 1-based position of the first op with offset `t` ("The indices start at 1!") -/
-def posOf : List Int → Int → Option Int
-  | [], _ => none
-  | x :: xs, t => if x = t then some 1 else (posOf xs t).map (· + 1)
+/-! ## closed and positional sets, renumbering -/
 
 /-- every jump parameter is the offset of an op of the set -/
 def Closed (c : RoutineSet) : Prop := ∀ o ∈ c.flat, ∀ t, jumpOf o = some t → t ∈ c.offsets
@@ -514,10 +537,14 @@ def normInfo (i : RoutineInfo) : RoutineInfo :=
   | .coroutine => ⟨.coroutine, -1, none⟩
   | .generic => ⟨.generic, -1, none⟩
   | k =>
-    if i.linkedTo ≠ -1 then ⟨k, i.linkedTo, none⟩
-    else match i.linkedToName with
-      | some n => ⟨k, -1, some n⟩
-      | none => ⟨k, -1, some "None"⟩
+    match i.linkedToName with
+    | some n => ⟨k, -1, some n⟩
+    | none => ⟨k, i.linkedTo, none⟩
+
+/-- the coroutine names the decompiler finds: the name of a COROUTINE routine, nothing for the others -/
+def corosRead : List RoutineInfo → List (Option String) → List (Option String)
+  | i :: is, n :: ns => (if i.kind = .coroutine then n else none) :: corosRead is ns
+  | _, _ => []
 
 /-- ops renumbered by the running counter standing at `n` -/
 def renumOps (n : Nat) : List Op → List Op
@@ -528,28 +555,13 @@ def renumRoutines (n : Nat) : List (List Op) → List (List Op)
   | [] => []
   | r :: rs => renumOps n r :: renumRoutines (n + r.length) rs
 
-/-- the routine set the decompile command builds from what the compile command printed for `c`:
-same routines, ops and parameters; offsets are the 1-based positions; no coroutine has a name -/
+/-- the routine set the decompile command builds from a document in which the ops of `c` are printed as they are:
+same routines, ops and parameters; offsets are the 1-based positions; coroutines keep their names -/
 def renum (c : RoutineSet) : RoutineSet :=
-  ⟨c.infos.map normInfo, renumRoutines 0 c.ops, c.infos.map fun _ => none⟩
+  ⟨c.infos.map normInfo, renumRoutines 0 c.ops, corosRead c.infos c.coros⟩
 
-/-- PROPOSED repair of compile.py: write the position of the target op instead of its internal offset -/
-def remapOp (offs : List Int) (o : Op) : Op :=
-  match jumpIdx o.name with
-  | none => o
-  | some i =>
-    match o.params[i]? with
-    | some (.int t) =>
-      match posOf offs t with
-      | some p => ⟨o.offset, o.name, o.params.set i (.int p)⟩
-      | none => o
-    | _ => o
-
-def remap (c : RoutineSet) : RoutineSet := ⟨c.infos, c.ops.map fun r => r.map (remapOp c.offsets), c.coros⟩
-
-def buildJsonFixed (settings : J) (c : RoutineSet) : R J := buildJson settings (remap c)
-
-/-- canonical (positional) form: jump parameters are positions, offsets are positions -/
+/-- canonical (positional) form — what the decompile command builds from what the compile command prints for `c`:
+jump parameters are positions, offsets are positions -/
 def canon (c : RoutineSet) : RoutineSet := renum (remap c)
 
 end ESV.Cli
